@@ -44,6 +44,7 @@ func contentPlan(prop string, tier string, root *simcore.RNG, sinks []string, nq
 		if r.Intn(3) == 0 {
 			j.Pre = pick(r, []int{1, 83, 84, 134, 5000, 40000, 300000})
 		}
+		j.Name = pick(r, fileNames)
 		sc := &Scenario{Prop: prop, Family: "content", Seed: r.Uint64(), Env: genEnv(r), Groups: [][]Job{{j}},
 			Sites: activeSites(r, sink, false), Sched: genSched(r, []string{"consumer", "renderer"})}
 		// a history of exports in one process: the job is preceded or followed by
